@@ -225,6 +225,7 @@ func init() {
 	lockJobs := func(tier string) []runner.Job {
 		return []runner.Job{
 			job(scAny(&sim.LockCfg{ID: "c09-lock-q2-probes", Q: 2, Probes: 1}), pick(tier, 6, 8), 2),
+			job(scAny(&sim.LockCfg{ID: "c09-lock-q2-reset", Q: 2, Resets: 1}), pick(tier, 6, 8), 2),
 			job(scAny(&sim.LockCfg{ID: "c09-lock-q3", Q: 3, Probes: 0}), pick(tier, 5, 7), 2),
 		}
 	}
